@@ -1,3 +1,48 @@
+//! C09 — damage to persistent files is detected or harmless, never silent, never a panic.
+
+mod alloc;
+mod bytes_oracle;
+mod corpus;
+mod damage;
+mod engine;
+mod formats;
+mod logpart;
+mod manipart;
+mod sstpart;
+mod tools;
+
+use vcore::Check;
+
+#[global_allocator]
+static GLOBAL: alloc::Counting = alloc::Counting;
+
+fn check() -> Check {
+    Check::new(
+        "C09",
+        "exploration",
+        "A pristine SST / write-ahead log / manifest is produced by the real writers from generated contents and builder options, \
+         every byte is tagged with its region by an independent walker, and 1-3 damages {bit flip, byte overwrite, truncation, appended random / zero / \
+         same-file-slice suffix} are drawn per REGION CLASS (so the few bytes of the final block, trailer, headers and separators are hit as often as the data); \
+         each damage plan is one evaluation. A case is non-trivial when the damaged file differs from the pristine one and the pristine file had \
+         >= 2 data blocks (SST) / >= 2 batches (log) / >= 2 edits (manifest). *-every-offset: for a few generated files (the same in every worker) EVERY single-bit flip, EVERY truncation length and the overwrites 0x00/0xff at EVERY offset are enumerated (label every-offset-of-this-file-enumerated), the offsets being divided among the workers. fuzz-corpus-replay: every file under /verif/fuzz/seeds/<target>/ is run through \
+         the reference-free oracle of the libFuzzer targets; non-trivial = non-empty input.",
+    )
+    .assume("Damage is 1-3 of: single bit flip, single byte overwrite, truncation to a length, appended suffix (random bytes, zeros, or a slice of the same pristine file). A suffix that is itself well-formed content is outside 'damage': an appended slice that happens to consist of whole CRC-valid log frames / manifest lines of the same file replays them and no per-record checksum can tell; such outcomes are accepted only when the plan contains an appended same-file slice AND every extra batch / line is a whole pristine one (label outcome:replayed-*).")
+    .assume("A truncation that removes whole trailing batches / transactions (or leaves a torn final one) yields a genuine prefix without an error; that is the documented torn-tail behaviour and is accepted only when the plan contains a truncation. Without a truncation a clean end before the last pristine entry is a failure (silently-short).")
+    .assume("metadata().file_size is compared only when the plan neither truncates nor appends: it is the length of the file, not of its data.")
+    .assume("Allocation oracle: the largest single allocation request made while the damaged file is read is recorded by a counting global allocator. A request is suspicious only if it exceeds BOTH 64 MiB and 16 x the damaged file's size (64 MiB is far above every legitimate buffer: the readers' 2 MiB BufReader, the 1 MiB log block, and blocks/filters bounded by the file size; the 16x factor keeps large pristine files out). The log reader trusts a frame's size field up to the documented constant TABLE_FULL_SIZE (two frames of a split batch share one buffer), so requests up to 2 x TABLE_FULL_SIZE are bounded by a documented constant: they are counted (candidate finding R-T, excluded when non-strict) and only requests above that bound fail unconditionally. Requests above 2 x TABLE_FULL_SIZE + 64 MiB are refused by the harness allocator (the process aborts and the parent attributes the abort to the running case).")
+    .assume("Known finding R-O: the SST final block carries no checksum; when a damage touches the bytes of its setsum / smallest_timestamp / biggest_timestamp fields (region tag computed from the pristine file by an independent protobuf walker) the comparison of metadata().{setsum,smallest_timestamp,biggest_timestamp} and fast_setsum() is excluded in non-strict mode and counted; entries, loads and first/last key stay asserted.")
+    .assume("Manifest info keys are printable ASCII characters (Edit and Manifest expose no iterator over info fields; the harness probes those keys and cross-checks Manifest::size()). Manifest::open rewrites the file, so every observation works on a fresh copy.")
+    .assume("SST tables are non-empty (an empty builder is C10's business).")
+    .part(engine::DamagePart(sstpart::SstDamage))
+    .part(engine::DamagePart(logpart::LogDamage))
+    .part(engine::DamagePart(manipart::ManiDamage))
+    .part(engine::ExhaustivePart { target: sstpart::SstDamage, name: "sst-every-offset", quick_files: 2, thorough_files: 40, max_len: 14_000 })
+    .part(engine::ExhaustivePart { target: logpart::LogDamage, name: "log-every-offset", quick_files: 3, thorough_files: 60, max_len: 6_000 })
+    .part(engine::ExhaustivePart { target: manipart::ManiDamage, name: "manifest-every-offset", quick_files: 4, thorough_files: 80, max_len: 3_000 })
+    .part(corpus::CorpusReplay)
+}
+
 fn main() {
-    vcore::main_with(vec![], &[]);
+    vcore::main_with(vec![check()], &[("seed-corpus", corpus::seed_corpus), ("dump", tools::dump), ("sweep", tools::sweep)]);
 }
